@@ -10,7 +10,8 @@ Definition covered (o : op) : bool :=
   match o with
   | OBNew | OBFromStatic _ | OBFromVec _ _ | OBFromOwner _ _ | OMNew | OMWithCapacity _ | OMZeroed _ | OMFromSlice _
   | OBClone _ | OBSlice _ _ _ | OBSliceIncl _ _ _ | OBSliceRef _ _ | OBSplitOff _ _ | OBSplitTo _ _ | OBTruncate _ _ | OBClear _ | OBAdvance _ _
-  | OBIsUnique _ | OBDrop _ | OMClone _ | OMDrop _ | OMTruncate _ _ | OMClear _ | OMWrite _ _ _ | OVIntoBytes _ | OVDrop _ => true
+  | OBIsUnique _ | OBTryIntoMut _ | OBIntoMut _ | OBIntoVec _ | OBDrop _ | OMClone _ | OMDrop _ | OMTruncate _ _ | OMClear _ | OMWrite _ _ _ | OVIntoBytes _ | OVDrop _
+  | OMSplitOff _ _ | OMSplitTo _ _ | OMSplit _ | OMAdvance _ _ | OMFreeze _ | OMIntoVec _ => true
   | _ => false
   end.
 Lemma covered_wfstep orc o : covered o = true -> wfstep orc o.
@@ -19,8 +20,9 @@ Proof.
   - apply wf_OBNew. - apply wf_OBFromStatic. - apply wf_OBFromVec. - apply wf_OBFromOwner.
   - apply wf_OMNew. - apply wf_OMWithCapacity. - apply wf_OMZeroed. - apply wf_OMFromSlice.
   - apply wf_OBClone. - apply wf_OBSlice. - apply wf_OBSliceIncl. - apply wf_OBSliceRef. - apply wf_OBSplitOff. - apply wf_OBSplitTo.
-  - apply wf_OBTruncate. - apply wf_OBClear. - apply wf_OBAdvance. - apply wf_OBIsUnique. - apply wf_OBDrop.
-  - apply wf_OMTruncate. - apply wf_OMClear. - apply wf_OMWrite. - apply wf_OMClone. - apply wf_OMDrop.
+  - apply wf_OBTruncate. - apply wf_OBClear. - apply wf_OBAdvance. - apply wf_OBIsUnique. - apply wf_OBTryIntoMut. - apply wf_OBIntoMut. - apply wf_OBIntoVec. - apply wf_OBDrop.
+  - apply wf_OMSplitOff. - apply wf_OMSplitTo. - apply wf_OMSplit. - apply wf_OMTruncate. - apply wf_OMClear. - apply wf_OMWrite. - apply wf_OMFreeze.
+  - apply wf_OMIntoVec. - apply wf_OMAdvance. - apply wf_OMClone. - apply wf_OMDrop.
   - apply wf_OVIntoBytes. - apply wf_OVDrop.
 Qed.
 
@@ -31,8 +33,9 @@ Proof.
   destruct (hstep orc o s []) as [r s' e'|s' e'|why] eqn:E; [exact H| |exact H].
   destruct (clean_panic_op o) eqn:Ecp.
   - pose proof (panics_are_clean orc o Ecp s []) as Hp. rewrite E in Hp. destruct Hp as [-> _]. exact W.
-  - destruct o; try discriminate. destruct panics; [|discriminate].
-    pose proof (from_owner_wf orc d true s W []) as Hp. rewrite E in Hp. exact Hp.
+  - destruct o; try discriminate Ecp; try discriminate Hc.
+    + destruct panics; [|discriminate]. pose proof (from_owner_wf orc d true s W []) as Hp. rewrite E in Hp. exact Hp.
+    + pose proof (freeze_never_panics orc h s []) as Hn. by rewrite E in Hn.
 Qed.
 
 (* histories *)
